@@ -9,7 +9,12 @@
 (***************************************************************************)
 EXTENDS YTypes
 
-Concat(ss) == FlattenSeq(ss)
+\* concatenation of a sequence of sequences, by halving (recursion depth log n, so that long vectors can be evaluated)
+RECURSIVE ConcatRange(_, _, _)
+ConcatRange(ss, lo, hi) == IF lo > hi THEN <<>>
+                           ELSE IF lo = hi THEN ss[lo]
+                           ELSE LET mid == (lo + hi) \div 2 IN ConcatRange(ss, lo, mid) \o ConcatRange(ss, mid + 1, hi)
+Concat(ss) == ConcatRange(ss, 1, Len(ss))
 
 \* value of a short digit sequence as a TLC integer (only used for 8-bit quantities)
 RECURSIVE SmallOf(_)
